@@ -89,6 +89,45 @@ def mono_avg_pairing(ctx, rep, clause):
     rep.floor('SIB-mono-avg', 'table selections on the monoisotopic switch', n, 4)
 
 
+def mode_reads_under_switch(ctx, rep, clause):
+    """in a function that takes the monoisotopic switch, every read of a mode-specific quantity (MONOISOTOPIC_* /
+    AVERAGE_* table, .mono_mass / .avg_mass of a vocabulary entry) is control-dependent on a test of that switch: an
+    unconditional read fixes the mode for that path whatever the caller asked for"""
+    from ..guards import dominating_tests, preceding_exits
+    n = 0
+    for f in ctx.program.all_functions():
+        if f.param('monoisotopic') is None or f.module.name.endswith('_setup'):
+            continue
+        parents = {}
+        for node in ast.walk(f.node):
+            for ch in ast.iter_child_nodes(node):
+                parents[id(ch)] = node
+        for x in walk_own(f.node):
+            name = None
+            if isinstance(x, ast.Name) and isinstance(x.ctx, ast.Load) and x.id.isupper() and \
+                    _family(x.id)[0] in ('mono', 'avg') and ('MASS' in x.id or 'ADJUSTMENTS' in x.id):
+                name = x.id
+            elif isinstance(x, ast.Attribute) and x.attr in ('mono_mass', 'avg_mass', 'calc_mono_mass', 'calc_avg_mass') \
+                    and isinstance(x.ctx, ast.Load):
+                name = '.' + x.attr
+            if name is None:
+                continue
+            par = parents.get(id(x))
+            if isinstance(par, ast.Compare) and any(isinstance(o, (ast.In, ast.NotIn)) for o in par.ops) and \
+                    any(x is c_ for c_ in par.comparators):
+                continue  # a membership test reads the key set, not a mass
+            n += 1
+            tests = [t for t, _pol in dominating_tests(f.node, x)] + list(preceding_exits(f.node.body, x))
+            under = any(_mono_test(t) is not None or
+                        (isinstance(t, ast.BoolOp) and any(_mono_test(v) is not None for v in t.values)) for t in tests)
+            # `calc_*` fallbacks (`entry.mono_mass if entry.mono_mass is not None else ...`) sit inside a selected arm
+            ob(rep, 'SIB-mono-avg', f.fq, f'read of {name} is selected by the monoisotopic switch', under,
+               'control-dependent on a test of `monoisotopic`',
+               f'`{norm_stmt(parents.get(id(x), x))[:80]}` reads {name} on a path that no test of `monoisotopic` selects: '
+               f'on that path the mass has this mode whatever the caller asked for', f.loc(x), clause)
+    rep.floor('SIB-mono-avg', 'mode-specific reads in functions taking the switch', n, 10)
+
+
 def _mono_test(test):
     """True if test means monoisotopic, False if it means not monoisotopic, None if unrelated"""
     if isinstance(test, ast.Name) and test.id == 'monoisotopic':
@@ -366,6 +405,7 @@ def run(ctx, rep):
     rep.floor('RET', 'parameter/return pairs', k, 30)
     # (d)
     mono_avg_pairing(ctx, rep, 'C02d')
+    mode_reads_under_switch(ctx, rep, 'C02d')
     from . import C05
     C05.affine_shape(ctx, rep, 'C02d')
     # (e)
